@@ -11,6 +11,9 @@ claimed = {
  'C05': dict(
    text="Proof, all inputs: the range/length machinery is verified function by function against the property's acceptance predicate: RangeNumber.Compare (sign of bound-value incl. min/max, exact bit-vector/IEEE semantics, no panic), RangeEntry.CheckValue (inside [min,max] or equal to the exact value), Range.CheckValue (one alternative; every element of a leaf-list on its own), fieldConstraints.checkRange/lenCheck (EVERY level of the typedef chain), patternCheck (invert-match honoured), checkString, CheckFieldPreConstraints (incl. string leaf-lists), and Selection.set: a vetoed or failing pre-constraint issues no Field request to the node (ghost counter fieldWrites) and the veto is what is returned. Not decided: enum/bits/identityref/union membership (node.NewValue), that node implementations store nothing on error, well-formedness of range literals vs. base type (assumed: RFC 7950 9.2.4).",
    ref="7 (C05)", technique="deductive verification: weakest-precondition VCs from go/ssa with loop invariants, opaque specification predicates and ghost state; contracts in meta/, node/, val/contracts_verif.go; discharged by z3/cvc5"),
+ 'C07': dict(
+   text="Proof per constraint, all requests: each query-parameter constraint is verified against the projection it defines — depth (MaxDepth.checkPathLen against the recursive specification relDepth: list+entry count once; termination proved), fc.range (ListRange: cursor moved to StartRow on the first request of the selected list, half-open window [StartRow,EndRow), other lists untouched — frame condition), fc.max-node-count (persistent counter, error exactly when exceeded), content (config/nonconfig filters), fields/fc.xfields (FieldsMatcher = selector match xor reverse), with-defaults=trim (value nil iff equal to schema default, otherwise untouched), Path.Len/EqualNoKey/equalSegment against sameMetaChain; every constraint answers (true,nil) and changes nothing for navigation requests. PathMatchExpression.match is proved crash-free outside the recorded known finding (selector longer than the candidate's tail). Not decided: combination order in Constraints.Check* (intersection), BuildConstraints parameter parsing, that node implementations honour the decisions.",
+   ref="7 (C07)", technique="deductive verification: weakest-precondition VCs from go/ssa, recursive specification functions with trusted induction axioms, frame conditions; contracts in node/contracts_verif.go; discharged by z3/cvc5"),
  'C10': dict(
    text="Proof, all inputs: val.Conv and the scalar conversion helpers toInt8..toUInt64, toDecimal64, toBool are verified in exact machine semantics (bit-vectors, IEEE floats) against denotesInt/denotesFloat: a nil error implies the result denotes exactly the source number for every Go integer kind, float32/float64 (integral and in range, no rounding) and numeric strings (strconv.Parse* trusted). Not decided: the list forms (to*List), time.Time and reflect fall-backs, node.NewValue front end.",
    ref="7 (C10)", technique="deductive verification: weakest-precondition VCs from go/ssa (bit-vector + floating-point theories), contracts in val/contracts_verif.go, discharged by z3/cvc5"),
